@@ -5,7 +5,7 @@ import time
 from c05 import taint_rules
 from common import Rule, finish
 from hirutil import native_registry
-from mirutil import Body
+from mirutil import Body, op_local
 
 MOD = re.compile(r"^jaq_std::time\b")
 
@@ -91,6 +91,38 @@ def run(facts, tier):
     if not whole:
         f5.missing_anchor("a whole-fraction accessor in jaq_std::time")
     rules.append(f5.finish())
+
+    # R20.6 the fraction test of an instant is sign-agnostic
+    f6 = Rule("R20.6", "whether an instant has a fractional part is decided by comparing its (signed) sub-second part with zero for inequality: `Timestamp::subsec_*` is negative "
+              "for instants before 1970, so a `> 0` test treats -0.5 as a whole second and the fraction is lost on the way back", floor=1)
+    nts = 0
+    for c, j in facts.all_mir():
+        if not MOD.match(j["def"]):
+            continue
+        b = Body(j)
+        src = set()
+        for i, t in b.calls():
+            callee = Body.callee(t) or ""
+            if re.search(r"^jiff::timestamp::Timestamp::(subsec_nanosecond|subsec_microsecond|subsec_millisecond)$|^jiff::signed_duration::SignedDuration::subsec_\w+$", callee):
+                src.add(t["d"]["l"])
+        if not src:
+            continue
+        der = b.derived_from(src)
+        for bb in b.bbs:
+            for s_ in bb["st"]:
+                if s_.get("k") == "A" and s_["r"].get("k") == "Bin" and s_["r"]["op"] in ("Gt", "Ge", "Lt", "Le", "Eq", "Ne"):
+                    a_, b2 = s_["r"]["a"], s_["r"]["b"]
+                    la, lb = op_local(a_), op_local(b2)
+                    zero = lambda o: (o.get("k") or {}).get("v") == 0
+                    if (la in der and zero(b2)) or (lb in der and zero(a_)):
+                        nts += 1
+                        ok = s_["r"]["op"] in ("Eq", "Ne")
+                        f6.examined((j["def"], s_.get("sp")), True, {"fn": j["def"], "fraction_test": s_["r"]["op"], "sign_agnostic": ok})
+                        if not ok:
+                            f6.violate(f"sign/{j['def'].split('::{closure')[0]}", f"`{j['def']}` tests the sub-second part of a timestamp with `{s_['r']['op']}` against 0: it is negative before 1970, so instants like -0.5 are taken for whole seconds (`(-0.5) | gmtime | mktime` gives 0)", where=s_.get("sp"))
+    if not nts:
+        f6.missing_anchor("a test of a timestamp's sub-second part against zero in jaq_std::time")
+    rules.append(f6.finish())
 
     explanation = ("Calendar correctness and inversion are value-level and not decided. Decided on jaq_std::time: numeric discipline of everything computed from user numbers (shared taint engine), "
                    "error discipline towards the calendar library (who-may-call), and that raw instant constructors are confined to the conversion kernels.")
